@@ -101,6 +101,7 @@ extern "C" ssize_t write(int fd, const void *p, size_t n) {
 // g_fdslot maps a descriptor accepted for slot 4..6 to its slot; every system call the code makes on such a descriptor is
 // recorded as a token of that slot's `M sys` line. The answers to readv()/read() come from the op (`xsock`): sizes of the
 // successful calls, then EAGAIN / end of file / ECONNRESET / EINTR / EIO; with nothing scripted the real kernel answers.
+// (EINTR: BufferedFd treats it like EAGAIN since fix 1c1abc6 — the model predicts no close for it.)
 struct RAns { char kind; size_t n; };              // 'c' a successful call of at most n bytes, 't' errno n (0 = end of file)
 static int g_fdslot[4096];
 static std::deque<RAns> g_rq[3];
